@@ -169,6 +169,10 @@ type Grammar struct {
 	Named      []*NamedSet
 	Asserts    []Assert
 
+	// Colliding is the number of injected in-rule sets that share one flattened
+	// spelling but differ in bracketing (see GenConfig.CollidingSets).
+	Colliding int
+
 	// RuleSets lists the in-rule set(...) occurrences in source order (filled by Finish).
 	RuleSets []*Expr
 }
